@@ -1,15 +1,24 @@
 """C14 — k-way merge: correspondence of Model/Merge.v with mokapot.utils.merge_sort (row-dict merge over
-tsv/csv/Parquet files) and mokapot.streaming.MergedTabularDataReader / merge_readers (table merger)."""
+tsv/csv/Parquet files) and mokapot.streaming.MergedTabularDataReader / merge_readers (table merger).
+
+A case is a list of inputs, each a list of rows [score image, row id] (what the model sees), plus a description of
+how these rows exist physically (`phys`): column names and order, row labels of the frames, missing payload values,
+the class of the score values, the kind of reader that delivers them, optional arguments of the call, how often / in
+which order the call is made.  The model knows nothing of the physical side: every physical variation has to leave the
+result (as a sequence of [image, id]) what the model computes, and every returned row has to be, field by field, the
+row that was written."""
 import atexit
+import copy
 import itertools
-import os
+import json
+import math
 import shutil
+import struct
 import tempfile
 from fractions import Fraction
 from pathlib import Path
 
 from .. import lib
-from ..lib import call_impl
 
 PROP = "C14"
 RULE = ("cases: (1) exhaustive: every way to put <=5 (quick) / <=7 (thorough) rows with scores from {1,2,3} into "
@@ -20,29 +29,67 @@ RULE = ("cases: (1) exhaustive: every way to put <=5 (quick) / <=7 (thorough) ro
         "dyadic-float scores, reader chunk 1..N+1, output chunk 1..total+1, DataFrame/tsv/Parquet-backed readers, "
         "Parquet row groups of 1, 2 or all rows; (3) malformed stream: one adjacent inversion (first / last / random "
         "position), shuffled input, wrong declared direction, empty input, no input - error kind and the rows yielded "
-        "before the error are compared for the table merger, the full sequence for merge_sort (it has no check). "
-        "Rows carry a unique id and two payload columns; full row sequences (including order among ties) are "
-        "compared. distinct = distinct (entry, configuration, inputs); non-trivial = >=2 inputs and (a score shared by "
+        "before the error are compared for the table merger, the full sequence for merge_sort (it has no check); "
+        "(4) physical stream (white-box review): 1..12 sorted inputs whose PHYSICAL form is varied independently of the "
+        "scores: column names (with blanks, Python keywords, leading underscore / digit, 'index', 'level_0'), column "
+        "order (score first / middle / last; a different order per file for merge_sort), row labels of DataFrame inputs "
+        "(RangeIndex, shifted, permuted, all-duplicate, string labels), missing values in the payload columns (also a "
+        "nullable 2^53+odd integer column in Parquet), score classes (dyadic int / float; special floats: +-inf, +-0.0, "
+        "subnormal, neighbouring doubles, 1e300; integers around 2^53 and 2^62 that differ by 1; int and float inputs "
+        "mixed in one merge_sort call), reader kinds as brew_rollup builds them (ColumnMappedReader, "
+        "ComputedTabularDataReader, JoinedTabularDataReader, a MergedTabularDataReader as input of another), text "
+        "suffixes .tsv/.csv/.psms/.peptides/.txt, the `columns` projection of read / chunked / row iterator, omitted "
+        "`descending` / `reader_chunk_size` (defaults), the call repeated on the same reader object or two iterators "
+        "consumed alternately; DataFrame inputs are checked to be untouched afterwards; (5) malformed variants of (4) "
+        "(inversion between values that differ by one unit in the last place / by 1 above 2^53, wrong direction); "
+        "(6) inputs longer than the DEFAULT chunk sizes (MERGE_SORT_CHUNK_SIZE = 20000 rows, reader_chunk_size = 1000 rows) "
+        "with the defaults left alone. "
+        "Rows carry a unique id and payload columns; every returned row is compared field by field (value, type, "
+        "missingness, key order) with the row written, and full row sequences (including order among ties) are "
+        "compared with the model. distinct = distinct (entry, configuration, inputs); non-trivial = >=2 inputs and (a score shared by "
         "two inputs, or a single-row input, or an unsorted input)")
 ASSUMPTIONS = [
-    "scores are finite, |score| < 2^53 (get_next_row compares float(score)); NaN / inf scores are not modelled",
-    "scores are passed to the model as exact integer images (value * 4 for the dyadic float columns), so order and "
-    "ties are the implementation's own",
+    "scores are not NaN (NaN has no place in a sorted sequence); +-inf, +-0.0 and subnormal scores are generated",
+    "utils.get_next_row compares float(score): for integer scores of magnitude >= 2^53 the model of merge_sort is given "
+    "the float image (the order the code sees), and the property itself (exact order) is evaluated separately on those "
+    "cases - see known finding merge_sort:int-scores-compared-as-float. The table merger is modelled with exact integers",
+    "scores are passed to the model as exact integer images (value * 4 for the dyadic float columns, the order-preserving "
+    "integer image of the IEEE bit pattern for the special floats), so order and ties are the implementation's own",
     "the model has no chunking: both merges consume per-input row iterators; independence of the reader chunk size "
     "(MERGE_SORT_CHUNK_SIZE, reader_chunk_size, Parquet row-group size) and of the output chunk size is established "
-    "by running the real readers with chunk sizes 1..N+1 against the same model output",
+    "by running the real readers with chunk sizes 1..N+1 (and the defaults on inputs longer than a chunk) against the "
+    "same model output",
     "all inputs of one utils.merge_sort call have the same file type (the code picks the iterator from paths[0])",
+    "a projection passed as `columns` contains the priority column and the id column (without the priority column the "
+    "table merger raises KeyError; the property does not speak about that)",
+    "a MergedTabularDataReader used as INPUT of another one is only generated with sorted inputs (the inner merger "
+    "pre-fetches, so the rows yielded before a rejection differ from the flat model)",
+    "MOKAPOT_MERGE_SORT_CHUNK_SIZE is read at import time; the chunk size is varied through the module attribute instead",
 ]
 TRUSTED_EXTRA = ["pandas / pyarrow (de)serialisation of the generated tables (rows are checked field by field against "
-                 "what was written: id, score, two payload columns)"]
+                 "what was written: id, score, payload columns; special float values were chosen to survive pandas' "
+                 "text round trip, which is verified when a file is written)"]
 
 SCALE = 4
 COLS = ["id", "score", "tag", "aux"]
+NCOLS = ["id", "score", "big"]
 VIAS = ["rows-Dicts", "read", "chunked", "merge_readers", "rows-DataFrame", "rows-Records"]
 STREAM_VIAS = ("merge_readers", "rows-Dicts", "rows-DataFrame", "rows-Records")
+BIG = 2 ** 53 + 1
+KEY_FLOAT = "merge_sort:int-scores-compared-as-float"
+
+NAME_POOL = {
+    "id": ["id", "SpecId", "spec id", "index", "level_0", "0"],
+    "score": ["score", "mokapot score", "q-value", "class", "1"],
+    "tag": ["tag", "def", "peptide seq", "_tag"],
+    "aux": ["aux", "_aux", "2nd", "lambda"],
+    "big": ["big", "_big", "big int"],
+}
+TEXT_SUFFIXES = [".tsv", ".csv", ".psms", ".peptides", ".txt"]
 
 _TMP = None
 _FILES = {}
+_FLOAT_FINDINGS = []
 
 
 def _tmpdir():
@@ -53,186 +100,578 @@ def _tmpdir():
     return _TMP
 
 
-def _val(k, dtype):
-    return int(k) if dtype == "int" else k / SCALE
-
-
-def _frame(rows, dtype):
-    import numpy as np
-    import pandas as pd
-    ids = [int(r[1]) for r in rows]
-    return pd.DataFrame({
-        "id": np.array(ids, dtype="int64"),
-        "score": np.array([_val(r[0], dtype) for r in rows], dtype="int64" if dtype == "int" else "float64"),
-        "tag": pd.Series([f"r{i}" for i in ids], dtype=object),
-        "aux": np.array([i * 0.5 for i in ids], dtype="float64"),
-    })
-
-
-BIG = 2 ** 53 + 1
-
-
-def _frame_numeric(rows, dtype):
-    import numpy as np
-    import pandas as pd
-    ids = [int(r[1]) for r in rows]
-    return pd.DataFrame({
-        "id": np.array(ids, dtype="int64"),
-        "score": np.array([_val(r[0], dtype) for r in rows], dtype="int64" if dtype == "int" else "float64"),
-        "big": np.array([BIG + 2 * i for i in ids], dtype="int64"),
-    })
-
-
-def _canon_numeric(d, dtype):
-    if sorted(d.keys()) != ["big", "id", "score"]:
-        raise Modified(f"columns {sorted(d.keys())}")
-    i = d["id"].item() if hasattr(d["id"], "item") else d["id"]
-    g = d["big"].item() if hasattr(d["big"], "item") else d["big"]
-    v = d["score"].item() if hasattr(d["score"], "item") else d["score"]
-    if isinstance(i, bool) or not isinstance(i, int):
-        raise Modified(f"id {i!r} is not the integer that was written")
-    if isinstance(g, bool) or not isinstance(g, int) or g != BIG + 2 * i:
-        raise Modified(f"big {g!r} of row {i} is not the integer {BIG + 2 * i} that was written")
-    fr = Fraction(v) * (1 if dtype == "int" else SCALE)
-    if fr.denominator != 1:
-        raise Modified(f"score {v!r}")
-    return [int(fr), int(i)]
-
-
-def _file(fmt, dtype, rg, rows, layout="mixed"):
-    """a (cached) real file holding the rows; fmt: tsv / csv (both tab separated, as mokapot reads them) / parquet"""
-    key = (fmt, dtype, rg if fmt == "parquet" else None, tuple((int(a), int(b)) for a, b in rows), layout)
-    p = _FILES.get(key)
-    if p is None:
-        p = Path(_tmpdir()) / f"f{len(_FILES)}.{fmt}"
-        df = _frame(rows, dtype) if layout == "mixed" else _frame_numeric(rows, dtype)
-        if fmt == "parquet":
-            kw = {} if not rg else {"row_group_size": int(rg)}
-            df.to_parquet(p, index=False, **kw)
-        else:
-            df.to_csv(p, sep="\t", index=False)
-        _FILES[key] = p
-    return p
-
-
 class Modified(Exception):
     pass
 
 
-def _canon(d, dtype):
-    """output row (dict-like) -> [score image, id]; raises if the row is not one of the rows written"""
-    if sorted(d.keys()) != sorted(COLS):
-        raise Modified(f"columns {sorted(d.keys())}")
-    i = d["id"]
-    i = i.item() if hasattr(i, "item") else i
-    v = d["score"]
-    v = v.item() if hasattr(v, "item") else v
-    if isinstance(i, bool) or not isinstance(i, int):
-        raise Modified(f"id {i!r}")
-    if d["tag"] != f"r{i}" or float(d["aux"]) != i * 0.5:
-        raise Modified(f"payload of row {i}: {d['tag']!r} {d['aux']!r}")
-    fr = Fraction(v) * (1 if dtype == "int" else SCALE)
-    if fr.denominator != 1:
-        raise Modified(f"score {v!r}")
-    return [int(fr), int(i)]
+def _kind(e):
+    """error kind of an exception of the implementation; a row that is not the row written keeps its description"""
+    if isinstance(e, Modified):
+        return f"Modified: {e}"[:240]
+    return lib.err_kind(e)
 
 
-def _rows_of_df(df, dtype):
-    if list(df.columns) != COLS:
-        raise Modified(f"columns {list(df.columns)}")
-    if list(df.index) != list(range(len(df))):
-        raise Modified(f"index {list(df.index)}")
-    if str(df["id"].dtype) != "int64" or str(df["score"].dtype) != ("int64" if dtype == "int" else "float64"):
-        raise Modified(f"dtypes {df.dtypes.tolist()}")
-    return [_canon(d, dtype) for d in df.to_dict(orient="records")]
+# ----------------------------------------------------------------------------- score images
+def fkey(f):
+    """order-preserving integer image of a double (-0.0 and 0.0 both map to 0)"""
+    u = struct.unpack(">Q", struct.pack(">d", float(f)))[0]
+    return -(u & (2 ** 63 - 1)) if u >> 63 else u
 
 
-# ----------------------------------------------------------------------------- real code
+def unkey(k, neg_zero=False):
+    if k == 0:
+        return -0.0 if neg_zero else 0.0
+    u = k if k > 0 else (2 ** 63 | -k)
+    return struct.unpack(">d", struct.pack(">Q", u))[0]
+
+
+_INF = float("inf")
+# every value survives DataFrame.to_csv -> read_csv bit for bit (checked again when a file is written)
+SPECIAL_FLOATS = [-_INF, -1.7976931348623157e308, -1e300, -2.5, -1.0000000000000002, -1.0, -5e-324, 0.0, 5e-324,
+                  2.2250738585072014e-308, 1e-7, 0.1, 0.3, 1.0, 1.0000000000000002, 1.0000000000000004, 1e16, 1e16 + 2,
+                  6.02214076e23, 1e300, 1.7976931348623157e308, _INF]
+FB_KEYS = sorted(fkey(x) for x in SPECIAL_FLOATS)
+HUGE_INTS = sorted([2 ** 53 + d for d in range(-1, 6)] + [-(2 ** 53) - d for d in range(0, 4)]
+                   + [2 ** 62 + d for d in range(0, 4)] + [0, 1, 2 ** 31, 2 ** 63 - 1, -(2 ** 63) + 1])
+
+
+def _ph(c, key, default=None):
+    return (c.get("phys") or {}).get(key, default)
+
+
+def _idb(c):
+    return int(_ph(c, "idb", 100))
+
+
+def _in_dtype(c, j):
+    ds = _ph(c, "dtypes")
+    return ds[j] if ds else c["dtype"]
+
+
+def _score_value(c, j, k, i):
+    """the Python value of the score of row i (exact image k) of input j"""
+    sc = _ph(c, "sclass")
+    if sc == "fbits":
+        return unkey(int(k), neg_zero=bool(i % 2))
+    if sc == "hugeint":
+        return int(k)
+    dt = _in_dtype(c, j)
+    if dt == "int":
+        return int(k)
+    if dt == "int4":
+        if int(k) % SCALE:
+            raise ValueError("int4 image not a multiple of 4")
+        return int(k) // SCALE
+    return int(k) / SCALE
+
+
+def _score_is_int(c, j):
+    return _ph(c, "sclass") == "hugeint" or (_ph(c, "sclass") is None and _in_dtype(c, j) in ("int", "int4"))
+
+
+def _model_image(c, k):
+    """the image the MODEL is given: merge_sort compares float(score)"""
+    if c["fn"] == "merge_sort" and _ph(c, "sclass") == "hugeint":
+        return int(float(int(k)))
+    return int(k)
+
+
+# ----------------------------------------------------------------------------- physical tables
+def _layout(c):
+    return c.get("layout", "mixed") if c["fn"] == "merge_sort" else "mixed"
+
+
+def _lorder(c, j=0):
+    """logical columns in physical order (input j of a merge_sort call may have its own rotation)"""
+    base = list(_ph(c, "order") or (COLS if _layout(c) == "mixed" else NCOLS))
+    if _ph(c, "rot") and c["fn"] == "merge_sort":
+        r = j % len(base)
+        base = base[r:] + base[:r]
+    return base
+
+
+def _pname(c, logical):
+    return (_ph(c, "names") or {}).get(logical, logical)
+
+
+def _nullable_big(c):
+    return bool(_ph(c, "nulls")) and c["fn"] == "merge_sort" and c.get("fmt") == "parquet" and _layout(c) == "numeric"
+
+
+def _payload(c, logical, i):
+    p = i % _idb(c)
+    nulls = bool(_ph(c, "nulls"))
+    if logical == "tag":
+        return None if nulls and p % 4 == 3 else f"r{i}"
+    if logical == "aux":
+        return None if nulls and p % 3 == 2 else i * 0.5
+    if logical == "big":
+        return None if _nullable_big(c) and p % 3 == 2 else BIG + 2 * i
+    raise KeyError(logical)
+
+
+def _expected(c):
+    """id -> (input number, exact image, {logical column: value})"""
+    out = {}
+    for j, inp in enumerate(c["inputs"]):
+        for k, i in inp:
+            vals = {"id": int(i), "score": _score_value(c, j, k, i)}
+            for l in _lorder(c):
+                if l not in vals:
+                    vals[l] = _payload(c, l, int(i))
+            out[int(i)] = (j, int(k), vals)
+    return out
+
+
+def _index_for(mode, n, j):
+    if mode == "shift":
+        return list(range(5 + j, 5 + j + n))
+    if mode == "perm":
+        return [(7 * q + 3) % n for q in range(n)] if n % 7 else list(range(n - 1, -1, -1))
+    if mode == "dups":
+        return [j % 2] * n
+    if mode == "str":
+        return [f"row{(q * 5) % 3}" for q in range(n)]
+    return None
+
+
+def _build_df(c, j, rows):
+    """the table of input j as a DataFrame: physical names, physical order, row labels of phys.index"""
+    import numpy as np
+    import pandas as pd
+    ids = [int(r[1]) for r in rows]
+    cols = {}
+    for l in _lorder(c, j):
+        if l == "id":
+            v = np.array(ids, dtype="int64")
+        elif l == "score":
+            vals = [_score_value(c, j, r[0], int(r[1])) for r in rows]
+            v = np.array(vals, dtype="int64" if _score_is_int(c, j) else "float64")
+        elif l == "tag":
+            v = pd.Series([_payload(c, l, i) for i in ids], dtype=object)
+        elif l == "aux":
+            v = np.array([float("nan") if _payload(c, l, i) is None else _payload(c, l, i) for i in ids], dtype="float64")
+        else:
+            v = np.array([BIG + 2 * i for i in ids], dtype="int64")       # nulls of `big`: see _write
+        cols[_pname(c, l)] = v
+    df = pd.DataFrame(cols)
+    idx = _index_for(_ph(c, "index", "range"), len(df), j)
+    if idx is not None:
+        df.index = idx
+    return df
+
+
+def _write(key, df, fmt, suffix, rg, null_big=None, check_floats=None):
+    """a (cached) real file; fmt: text (tab separated, as mokapot reads and writes) / parquet"""
+    p = _FILES.get(key)
+    if p is not None:
+        return p
+    p = Path(_tmpdir()) / f"f{len(_FILES)}{suffix}"
+    if fmt == "parquet":
+        kw = {} if not rg else {"row_group_size": int(rg)}
+        if null_big:
+            # written by pyarrow directly (no pandas metadata): an int64 column with nulls
+            import pyarrow as pa
+            import pyarrow.parquet as pq
+            name, missing = null_big
+            arrays = []
+            for col in df.columns:
+                vals = df[col].tolist()
+                if col == name:
+                    arrays.append(pa.array([None if q in missing else int(v) for q, v in enumerate(vals)], type=pa.int64()))
+                else:
+                    arrays.append(pa.array(vals))
+            pq.write_table(pa.Table.from_arrays(arrays, names=[str(x) for x in df.columns]), p, **kw)
+        else:
+            df.to_parquet(p, index=False, **kw)
+    else:
+        import pandas as pd
+        df.to_csv(p, sep="\t", index=False)
+        if check_floats:
+            back = pd.read_csv(p, sep="\t")[check_floats[0]].tolist()
+            if [struct.pack(">d", float(x)) for x in back] != [struct.pack(">d", float(x)) for x in check_floats[1]]:
+                raise RuntimeError(f"harness: float scores do not survive the text round trip: {check_floats[1]} -> {back}")
+    _FILES[key] = p
+    return p
+
+
+def _file_of_input(c, j, rows, df=None, fmt=None):
+    fmt = fmt or c.get("fmt") or c.get("backing")
+    df = _build_df(c, j, rows) if df is None else df
+    kind = "parquet" if fmt == "parquet" else "text"
+    suffix = ".parquet" if kind == "parquet" else (_ph(c, "suffix") or "." + fmt)
+    nb = None
+    if _nullable_big(c):
+        nb = [_pname(c, "big"), [q for q, r in enumerate(rows) if _payload(c, "big", int(r[1])) is None]]
+    cf = None
+    sn = _pname(c, "score")
+    if kind == "text" and _ph(c, "sclass") == "fbits" and sn in df.columns:
+        cf = [sn, df[sn].tolist()]
+    key = lib.stable_hash([kind, suffix, c.get("rg") if kind == "parquet" else None, [str(x) for x in df.columns],
+                           [str(t) for t in df.dtypes], [[int(a), int(b)] for a, b in rows], _ph(c, "sclass"),
+                           _in_dtype(c, j), bool(_ph(c, "nulls")), _idb(c), nb])
+    return _write(key, df, kind, suffix, c.get("rg"), nb, cf)
+
+
+# ----------------------------------------------------------------------------- checking returned rows
+def _py(v):
+    return v.item() if hasattr(v, "item") else v
+
+
+def _missing(v):
+    if v is None:
+        return True
+    try:
+        import pandas as pd
+        if v is pd.NA or v is pd.NaT:
+            return True
+    except Exception:
+        pass
+    return isinstance(v, float) and v != v
+
+
+def _same_value(exp, got):
+    got = _py(got)
+    if exp is None:
+        return _missing(got)
+    if isinstance(exp, str):
+        return isinstance(got, str) and got == exp
+    if isinstance(exp, bool):
+        return isinstance(got, bool) and got == exp
+    if isinstance(exp, int):
+        return isinstance(got, int) and not isinstance(got, bool) and got == exp
+    if isinstance(exp, float):
+        return (isinstance(got, float) and got == exp and math.copysign(1.0, got) == math.copysign(1.0, exp))
+    return False
+
+
+class _Expect:
+    """what a returned row has to look like"""
+
+    def __init__(self, c, projected=True):
+        self.c = c
+        self.rows = _expected(c)
+        self.idn = _pname(c, "id")
+        cols = _ph(c, "columns") if projected else None
+        self.proj = list(cols) if cols else None
+
+    def logical(self, j):
+        return self.proj if self.proj is not None else _lorder(self.c, j)
+
+    def names(self, j=0):
+        return [_pname(self.c, l) for l in self.logical(j)]
+
+    def canon(self, d):
+        """dict-like returned row -> [exact score image, id]; raises Modified if it is not a row that was written"""
+        keys = [str(k) for k in d.keys()]
+        if self.idn not in keys:
+            raise Modified(f"columns {keys}")
+        i = _py(d[self.idn])
+        if isinstance(i, bool) or not isinstance(i, int):
+            raise Modified(f"id {i!r} is not the integer that was written")
+        e = self.rows.get(i)
+        if e is None:
+            raise Modified(f"row id {i} was never written")
+        j, k, vals = e
+        if keys != self.names(j):
+            raise Modified(f"columns {keys} instead of {self.names(j)}")
+        for l in self.logical(j):
+            got = d[_pname(self.c, l)]
+            if not _same_value(vals[l], got):
+                raise Modified(f"column {l} of row {i}: {_py(got)!r} ({type(_py(got)).__name__}) instead of {vals[l]!r}")
+        return [k, i]
+
+    def of_df(self, df, check_dtypes=True):
+        if [str(x) for x in df.columns] != self.names(0):
+            raise Modified(f"columns {list(df.columns)} instead of {self.names(0)}")
+        if list(df.index) != list(range(len(df))):
+            raise Modified(f"index {list(df.index)}")
+        if check_dtypes and len(df):
+            want = {"id": "int64", "score": "int64" if _score_is_int(self.c, 0) else "float64"}
+            if not _ph(self.c, "nulls"):
+                want.update({"aux": "float64", "big": "int64"})
+            for l in self.logical(0):
+                if l in want and str(df[_pname(self.c, l)].dtype) != want[l]:
+                    raise Modified(f"dtype of {l}: {df[_pname(self.c, l)].dtype}")
+        return [self.canon(d) for d in df.to_dict(orient="records")]
+
+
+# ----------------------------------------------------------------------------- real code: merge_sort
+def _drain_alternately(mk):
+    """two iterators of the same call, advanced in turns -> [(rows, error kind)] * 2"""
+    res = []
+    its = []
+    for _ in range(2):
+        try:
+            its.append(mk())
+        except BaseException as e:  # noqa
+            if isinstance(e, (KeyboardInterrupt, SystemExit, MemoryError)):
+                raise
+            its.append(e)
+    out = [[[], None], [[], None]]
+    live = [True, True]
+    for n, it in enumerate(its):
+        if isinstance(it, BaseException):
+            out[n][1] = _kind(it)
+            live[n] = False
+    while any(live):
+        for n in range(2):
+            if not live[n]:
+                continue
+            try:
+                out[n][0].append(next(its[n]))
+            except StopIteration:
+                live[n] = False
+            except BaseException as e:  # noqa
+                if isinstance(e, (KeyboardInterrupt, SystemExit, MemoryError)):
+                    raise
+                out[n][1] = _kind(e)
+                live[n] = False
+    return out
+
+
 def _run_merge_sort(c):
     import mokapot.utils as U
-    layout = c.get("layout", "mixed")
-    paths = [_file(c["fmt"], c["dtype"], c.get("rg"), rows, layout) for rows in c["inputs"]]
-    old = U.MERGE_SORT_CHUNK_SIZE
-    U.MERGE_SORT_CHUNK_SIZE = int(c["rchunk"])
+    import mokapot.constants as K
+    paths = [_file_of_input(c, j, rows) for j, rows in enumerate(c["inputs"])]
+    X = _Expect(c, projected=False)
+    old = (U.MERGE_SORT_CHUNK_SIZE, K.MERGE_SORT_CHUNK_SIZE)
+    if int(c["rchunk"]) > 0:                 # 0: leave the default (constants.MERGE_SORT_CHUNK_SIZE) alone
+        U.MERGE_SORT_CHUNK_SIZE = K.MERGE_SORT_CHUNK_SIZE = int(c["rchunk"])
+    sn = _pname(c, "score")
+    rep = _ph(c, "repeat", "none")
     try:
-        out = list(U.merge_sort(paths, "score"))
+        if rep == "interleaved":
+            (a, ea), (b, eb) = _drain_alternately(lambda: U.merge_sort(list(paths), sn))
+            if ea is not None or eb is not None:
+                if ea != eb:
+                    raise Modified(f"two merges of the same files end differently: {ea} / {eb}")
+                raise _Reraise(ea)
+            out = [X.canon(d) for d in a]
+            if out != [X.canon(d) for d in b]:
+                raise Modified("two merges of the same files, consumed alternately, differ")
+        else:
+            out = [X.canon(d) for d in U.merge_sort(list(paths), sn)]
+            if rep == "twice":
+                if out != [X.canon(d) for d in U.merge_sort(list(paths), sn)]:
+                    raise Modified("second merge of the same files differs from the first")
     finally:
-        U.MERGE_SORT_CHUNK_SIZE = old
-    return [(_canon if layout == "mixed" else _canon_numeric)(d, c["dtype"]) for d in out]
+        U.MERGE_SORT_CHUNK_SIZE, K.MERGE_SORT_CHUNK_SIZE = old
+    if c["fn"] == "merge_sort" and _ph(c, "sclass") == "hugeint":
+        msg = oracle(c, ("ok", out))
+        if msg:
+            _FLOAT_FINDINGS.append({"key": KEY_FLOAT, "what": msg[:300], "failing_input": {k: v for k, v in c.items() if k != "tags"}})
+    return out
 
 
-def _readers(c):
+class _Reraise(Exception):
+    """carries the error kind of the implementation through call_impl"""
+
+    def __init__(self, kind):
+        super().__init__(kind)
+        self.kind = kind
+
+
+# ----------------------------------------------------------------------------- real code: table merger
+def _base_reader(c, j, rows, df, frames, part=0):
     from mokapot.tabular_data import DataFrameReader, TabularDataReader
     b = c.get("backing", "df")
     if b == "df":
-        return [DataFrameReader(_frame(rows, c["dtype"])) for rows in c["inputs"]]
-    return [TabularDataReader.from_path(_file(b, c["dtype"], c.get("rg"), rows)) for rows in c["inputs"]]
+        frames.append((df, df.copy(deep=True)))
+        return DataFrameReader(df)
+    return TabularDataReader.from_path(_file_of_input(c, j, rows, df=df, fmt=b))
+
+
+def _reader_one(c, j, rows, frames):
+    import numpy as np
+    from mokapot.tabular_data import ColumnMappedReader
+    from mokapot.streaming import ComputedTabularDataReader, JoinedTabularDataReader
+    full = _build_df(c, j, rows)
+    wrap = _ph(c, "wrap", "none")
+    if wrap == "mapped":
+        cmap = {"src " + _pname(c, l): _pname(c, l) for l in ("score", "tag")}
+        src = full.rename(columns={v: k for k, v in cmap.items()})
+        return ColumnMappedReader(_base_reader(c, j, rows, src, frames), cmap)
+    if wrap == "computed":
+        auxn, idn, idb, nulls = _pname(c, "aux"), _pname(c, "id"), _idb(c), bool(_ph(c, "nulls"))
+        if list(full.columns)[-1] != auxn:
+            raise RuntimeError("harness: computed column must be the last one")
+        src = full.drop(columns=[auxn])
+
+        def func(df):
+            ids = df[idn].to_numpy()
+            v = ids * 0.5
+            return np.where((ids % idb) % 3 == 2, np.nan, v) if nulls else v
+        return ComputedTabularDataReader(_base_reader(c, j, rows, src, frames), auxn, np.dtype("float64"), func)
+    if wrap == "joined":
+        cs = list(full.columns)
+        return JoinedTabularDataReader([_base_reader(c, j, rows, full[cs[:2]].copy(), frames, 0),
+                                        _base_reader(c, j, rows, full[cs[2:]].copy(), frames, 1)])
+    return _base_reader(c, j, rows, full, frames)
+
+
+def _readers(c, frames):
+    from mokapot.streaming import MergedTabularDataReader
+    rs = [_reader_one(c, j, rows, frames) for j, rows in enumerate(c["inputs"])]
+    if _ph(c, "wrap") == "nested" and len(rs) >= 2:
+        h = (len(rs) + 1) // 2
+        kw = {"descending": bool(c["desc"]), "reader_chunk_size": max(1, int(c["rchunk"]))}
+        rs = [MergedTabularDataReader(rs[:h], _pname(c, "score"), **kw),
+              MergedTabularDataReader(rs[h:], _pname(c, "score"), **kw)]
+    return rs
+
+
+def _merger_kwargs(c):
+    kw = {}
+    defaults = _ph(c, "defaults") or []
+    if not ("desc" in defaults and c["desc"]):
+        kw["descending"] = bool(c["desc"])
+    if "rchunk" not in defaults:
+        kw["reader_chunk_size"] = int(c["rchunk"])
+    return kw
+
+
+def _columns_kw(c, X):
+    return {} if X.proj is None else {"columns": [_pname(c, l) for l in X.proj]}
+
+
+def _frames_untouched(frames):
+    for df, orig in frames:
+        if list(df.columns) != list(orig.columns) or list(df.index) != list(orig.index) or not df.equals(orig):
+            return False
+    return True
 
 
 def _run_table_full(c):
     from mokapot.streaming import MergedTabularDataReader
-    rd = MergedTabularDataReader(_readers(c), "score", descending=bool(c["desc"]),
-                                 reader_chunk_size=int(c["rchunk"]))
-    if c["via"] == "read":
-        return _rows_of_df(rd.read(), c["dtype"])
-    oc = int(c["ochunk"])
-    chunks = list(rd.get_chunked_data_iterator(chunk_size=oc))
-    lens = [len(ch) for ch in chunks]
-    if any(n != oc for n in lens[:-1]) or not lens or not (1 <= lens[-1] <= oc):
-        raise Modified(f"chunk lengths {lens} for chunk_size {oc}")
-    return [r for ch in chunks for r in _rows_of_df(ch, c["dtype"])]
+    frames = []
+    X = _Expect(c)
+    rd = MergedTabularDataReader(_readers(c, frames), _pname(c, "score"), **_merger_kwargs(c))
+    ck = _columns_kw(c, X)
+
+    def once():
+        if c["via"] == "read":
+            return X.of_df(rd.read(**ck))
+        oc = int(c["ochunk"])
+        chunks = list(rd.get_chunked_data_iterator(chunk_size=oc, **ck))
+        lens = [len(ch) for ch in chunks]
+        if any(n != oc for n in lens[:-1]) or not lens or not (1 <= lens[-1] <= oc):
+            raise Modified(f"chunk lengths {lens} for chunk_size {oc}")
+        return [r for ch in chunks for r in X.of_df(ch)]
+    out = once()
+    if _ph(c, "repeat", "none") != "none" and once() != out:
+        raise Modified("second read of the same merged reader differs from the first")
+    if not _frames_untouched(frames):
+        raise Modified("an input DataFrame was changed by the merge")
+    return out
 
 
 def _run_table_stream(c):
     """-> [rows yielded, exception kind or None]"""
     from mokapot.streaming import MergedTabularDataReader, merge_readers
     from mokapot.tabular_data import TableType
-    prefix, err = [], None
+    frames = []
+    X = _Expect(c, projected=c["via"] != "merge_readers")
+    sn = _pname(c, "score")
+    kw = _merger_kwargs(c)
     try:
+        readers = _readers(c, frames)
         if c["via"] == "merge_readers":
-            it = merge_readers(_readers(c), "score", bool(c["desc"]), reader_chunk_size=int(c["rchunk"]))
-            for ch in it:
-                rows = _rows_of_df(ch, c["dtype"])
+            def mk():
+                if "descending" in kw:        # positional, as the function is declared
+                    return merge_readers(readers, sn, kw["descending"], **{k: v for k, v in kw.items() if k != "descending"})
+                return merge_readers(readers, sn, **kw)
+
+            def conv(ch):
+                rows = X.of_df(ch)
                 if len(rows) != 1:
                     raise Modified(f"merge_readers chunk of {len(rows)} rows")
-                prefix.extend(rows)
+                return rows
         else:
             rt = TableType[c["via"].split("-")[1]]
-            rd = MergedTabularDataReader(_readers(c), "score", descending=bool(c["desc"]),
-                                         reader_chunk_size=int(c["rchunk"]))
-            for row in rd.get_row_iterator(row_type=rt):
+            rd = MergedTabularDataReader(readers, sn, **kw)
+            ck = _columns_kw(c, X)
+
+            def mk():
+                return rd.get_row_iterator(row_type=rt, **ck)
+
+            def conv(row):
                 if rt == TableType.DataFrame:
-                    prefix.extend(_rows_of_df(row, c["dtype"]))
-                elif rt == TableType.Dicts:
-                    prefix.append(_canon(row, c["dtype"]))
-                else:
-                    prefix.append(_canon({n: row[n] for n in row.dtype.names}, c["dtype"]))
+                    return X.of_df(row)
+                if rt == TableType.Dicts:
+                    return [X.canon(row)]
+                return [X.canon({n: row[n] for n in row.dtype.names})]
     except BaseException as e:  # noqa
         if isinstance(e, (KeyboardInterrupt, SystemExit, MemoryError)):
             raise
-        err = lib.err_kind(e)
-    return [prefix, err]
+        return [[], _kind(e)]
+
+    def drain():
+        prefix, err = [], None
+        try:
+            for x in mk():
+                prefix.extend(conv(x))
+        except BaseException as e:  # noqa
+            if isinstance(e, (KeyboardInterrupt, SystemExit, MemoryError)):
+                raise
+            err = _kind(e)
+        return [prefix, err]
+
+    rep = _ph(c, "repeat", "none")
+    if rep == "interleaved":
+        (a, ea), (b, eb) = _drain_alternately(mk)
+        res = []
+        for raw, e in ((a, ea), (b, eb)):
+            prefix, err = [], e
+            try:
+                for x in raw:
+                    prefix.extend(conv(x))
+            except Modified as m:
+                err = _kind(m)
+            res.append([prefix, err])
+        if res[0] != res[1]:
+            return [res[0][0], "Modified:two iterators of the same reader, consumed alternately, differ"]
+        out = res[0]
+    else:
+        out = drain()
+        if rep == "twice" and drain() != out:
+            return [out[0], "Modified:second iteration of the same reader differs from the first"]
+    if out[1] is None and not _frames_untouched(frames):
+        return [out[0], "Modified:an input DataFrame was changed by the merge"]
+    return out
 
 
 def impl(c):
     if c["fn"] == "merge_sort":
-        return call_impl(_run_merge_sort, c)
+        try:
+            return ("ok", _run_merge_sort(c))
+        except _Reraise as e:
+            return ("err", e.kind)
+        except BaseException as e:  # noqa
+            if isinstance(e, (KeyboardInterrupt, SystemExit, MemoryError)):
+                raise
+            return ("err", _kind(e))
     if c["via"] in STREAM_VIAS:
         return _run_table_stream(c)
-    return call_impl(_run_table_full, c)
+    try:
+        return ("ok", _run_table_full(c))
+    except BaseException as e:  # noqa
+        if isinstance(e, (KeyboardInterrupt, SystemExit, MemoryError)):
+            raise
+        return ("err", _kind(e))
 
 
 # ----------------------------------------------------------------------------- model side
-def _enc_inputs(inputs):
-    return lib.lst(inputs, lambda inp: lib.lst(inp, lib.pair(lib.z, lib.z)))
+def _enc_inputs(c):
+    return lib.lst(c["inputs"], lambda inp: lib.lst([[_model_image(c, r[0]), r[1]] for r in inp], lib.pair(lib.z, lib.z)))
 
 
 def encode(c):
     if c["fn"] == "merge_sort":
-        return "c14.merge_sort " + _enc_inputs(c["inputs"])
+        return "c14.merge_sort " + _enc_inputs(c)
     if c["via"] in STREAM_VIAS:
-        return f"c14.merge_stream {lib.b(c['desc'])} " + _enc_inputs(c["inputs"])
-    return f"c14.merge_checked {lib.b(c['desc'])} " + _enc_inputs(c["inputs"])
+        return f"c14.merge_stream {lib.b(c['desc'])} " + _enc_inputs(c)
+    return f"c14.merge_checked {lib.b(c['desc'])} " + _enc_inputs(c)
 
 
 def decode(c, t):
@@ -245,7 +684,10 @@ def decode(c, t):
 
 
 def same(c, m, i):
-    return lib.jsonable(m) == lib.jsonable(i)
+    i = lib.jsonable(i)
+    if c["fn"] == "merge_sort" and _ph(c, "sclass") == "hugeint" and isinstance(i, list) and i and i[0] == "ok":
+        i = ["ok", [[_model_image(c, r[0]), r[1]] for r in i[1]]]
+    return lib.jsonable(m) == i
 
 
 # ----------------------------------------------------------------------------- property
@@ -273,7 +715,7 @@ def oracle(c, i):
     the table merger rejects an input that is not sorted as declared"""
     ins = c["inputs"]
     if not ins or any(len(inp) == 0 for inp in ins):
-        return None                       # outside the quantifier (1..8 inputs of 1..N rows)
+        return None                       # outside the quantifier (at least one input, every input has rows)
     desc = _declared_desc(c)
     all_sorted = all(_sorted_dir(inp, desc) for inp in ins)
     stream = c["fn"] == "table" and c["via"] in STREAM_VIAS
@@ -282,28 +724,54 @@ def oracle(c, i):
     else:
         out, err = (i[1], None) if i[0] == "ok" else (None, i[1])
     want = sorted([int(a), int(b)] for inp in ins for a, b in inp)
+    if err is not None and str(err).startswith("Modified"):
+        return f"rows are not returned exactly as written / the call is not repeatable: {err}"
     if all_sorted:
         if err is not None:
             return f"sorted inputs but the merge raised {err}"
         out = [[int(a), int(b)] for a, b in out]
         if sorted(out) != want:
-            return f"output rows are not the input rows exactly once: got {out}, inputs {ins}"
+            return f"output rows are not the input rows exactly once: got {out[:40]}, inputs {str(ins)[:400]}"
         if not _sorted_dir(out, desc):
-            return f"output not in {'non-increasing' if desc else 'non-decreasing'} score order: {out}"
+            return f"output not in {'non-increasing' if desc else 'non-decreasing'} score order: {out[:40]}"
         return None
     if c["fn"] == "table":
         if err != "ValueError":
             return (f"an input is not sorted {'descending' if desc else 'ascending'} but the table merger "
-                    f"{'returned ' + str(out) if err is None else 'raised ' + str(err)} instead of ValueError")
+                    f"{'returned ' + str(out)[:300] if err is None else 'raised ' + str(err)} instead of ValueError")
         if stream and not _sorted_dir(out, desc):
-            return f"rows yielded before the rejection are not in order: {out}"
+            return f"rows yielded before the rejection are not in order: {out[:40]}"
     return None
+
+
+def finding_key(c, m, i):
+    """utils.get_next_row compares float(score): integer scores >= 2^53 that differ by less than the float spacing
+    are ties for the code.  Only when the output is a correct merge for the float images."""
+    if c["fn"] != "merge_sort" or _ph(c, "sclass") != "hugeint" or i is None:
+        return None
+    i = lib.jsonable(i)
+    if not (isinstance(i, list) and i and i[0] == "ok"):
+        return None
+    if oracle(c, i) is None:
+        return None
+    fc = dict(c, inputs=[[[_model_image(c, r[0]), r[1]] for r in inp] for inp in c["inputs"]], phys=dict(c["phys"], sclass=None))
+    fi = ["ok", [[_model_image(c, r[0]), r[1]] for r in i[1]]]
+    return KEY_FLOAT if oracle(fc, fi) is None else None
+
+
+def extra_checks(ctx):
+    """the property (exact order) on the merge_sort cases with integer scores >= 2^53: the main pipeline compares those
+    with the model on float images (what the code compares); a property failure is reported under its finding key"""
+    seen = {}
+    for f in sorted(_FLOAT_FINDINGS, key=lambda f: sum(len(x) for x in f["failing_input"]["inputs"])):
+        seen.setdefault(f["key"], f)         # the smallest failing input
+    return list(seen.values()), {"merge_sort_huge_int_cases_violating_exact_order": len(_FLOAT_FINDINGS)}
 
 
 def shrink(c):
     ins = c["inputs"]
     for j in range(len(ins)):
-        if len(ins) > 1:
+        if len(ins) > 1 and not _ph(c, "dtypes"):
             yield dict(c, inputs=ins[:j] + ins[j + 1:])
     for j, inp in enumerate(ins):
         for p in range(len(inp)):
@@ -313,6 +781,15 @@ def shrink(c):
         yield dict(c, rchunk=1)
     if c.get("backing", "df") != "df":
         yield dict(c, backing="df")
+    ph = c.get("phys")
+    if ph:
+        for k, v in (("repeat", "none"), ("wrap", "none"), ("columns", None), ("defaults", []), ("rot", False),
+                     ("names", {}), ("index", "range"), ("nulls", False)):
+            if ph.get(k) not in (None, v):
+                if k == "index" and c.get("backing", "df") != "df":
+                    continue
+                yield dict(c, phys=dict(ph, **{k: v}))
+        return                       # images of the special score classes are not re-ranked
     # scores -> ranks
     ks = sorted({r[0] for inp in ins for r in inp})
     if ks != list(range(len(ks))):
@@ -321,14 +798,15 @@ def shrink(c):
 
 
 # ----------------------------------------------------------------------------- generators
-def _with_ids(score_lists):
-    return [[[int(k), 100 * j + p] for p, k in enumerate(ks)] for j, ks in enumerate(score_lists)]
+def _with_ids(score_lists, base=100):
+    return [[[int(k), base * j + p] for p, k in enumerate(ks)] for j, ks in enumerate(score_lists)]
 
 
 def _shape_tags(ins, desc):
     n = sum(len(x) for x in ins)
     allk = [r[0] for inp in ins for r in inp]
-    tags = [f"k={len(ins)}", f"rows={'0' if n == 0 else '1-3' if n <= 3 else '4-7' if n <= 7 else '8-20' if n <= 20 else '21+'}"]
+    tags = [f"k={len(ins) if len(ins) <= 8 else '9+'}",
+            f"rows={'0' if n == 0 else '1-3' if n <= 3 else '4-7' if n <= 7 else '8-20' if n <= 20 else '21-999' if n < 1000 else '1000+'}"]
     tags.append("ties" if len(set(allk)) < len(allk) else "no-ties")
     if any(len(inp) == 1 for inp in ins):
         tags.append("single-row-input")
@@ -341,20 +819,55 @@ def _shape_tags(ins, desc):
     return tags
 
 
-def _mk_table(ins, desc, via, rchunk, ochunk=1, dtype="float", backing="df", rg=None, extra=()):
+def _phys_tags(ph):
+    if not ph:
+        return []
+    t = ["phys"]
+    nm = ph.get("names") or {}
+    if nm:
+        t.append("names=non-default")
+        if any(not str(v).isidentifier() or v in ("class", "def", "lambda") or str(v).startswith("_") for v in nm.values()):
+            t.append("names=not-an-identifier")
+        if any(v in ("index", "level_0") for v in nm.values()):
+            t.append("names=index/level_0")
+    if ph.get("order"):
+        t.append(f"score-col-pos={ph['order'].index('score')}")
+    for k in ("index", "wrap", "repeat", "sclass", "suffix"):
+        if ph.get(k) not in (None, "none", "range"):
+            t.append(f"{k}={ph[k]}")
+    if ph.get("nulls"):
+        t.append("payload-nulls")
+    if ph.get("columns"):
+        t.append("columns=projection")
+    for d in ph.get("defaults") or []:
+        t.append(f"default-{d}")
+    if ph.get("dtypes") and len(set(ph["dtypes"])) > 1:
+        t.append("mixed-int-float-inputs")
+    if ph.get("rot"):
+        t.append("per-file-column-order")
+    return t
+
+
+def _mk_table(ins, desc, via, rchunk, ochunk=1, dtype="float", backing="df", rg=None, extra=(), phys=None):
     c = {"fn": "table", "desc": bool(desc), "inputs": ins, "via": via, "rchunk": int(rchunk), "ochunk": int(ochunk),
          "dtype": dtype, "backing": backing, "rg": rg}
+    if phys:
+        c["phys"] = phys
     c["tags"] = (["table", "desc" if desc else "asc", via, f"backing={backing}", f"dtype={dtype}"]
-                 + _shape_tags(ins, desc) + list(extra))
+                 + _shape_tags(ins, desc) + _phys_tags(phys) + list(extra))
     return c
 
 
-def _mk_ms(ins, fmt, rchunk, dtype="float", rg=None, extra=()):
+def _mk_ms(ins, fmt, rchunk, dtype="float", rg=None, extra=(), phys=None, layout=None):
     # a third of the merge_sort inputs are tables WITHOUT any string column (id, score and a 2^53+odd integer): a row
     # iterator that goes through a numeric array would turn the integers into floats
-    layout = "numeric" if (len(ins) + sum(len(x) for x in ins)) % 3 == 0 else "mixed"
+    if layout is None:
+        layout = "numeric" if (len(ins) + sum(len(x) for x in ins)) % 3 == 0 else "mixed"
     c = {"fn": "merge_sort", "inputs": ins, "fmt": fmt, "rchunk": int(rchunk), "dtype": dtype, "rg": rg, "layout": layout}
-    c["tags"] = ["merge_sort", f"fmt={fmt}", f"dtype={dtype}", f"layout={layout}"] + _shape_tags(ins, True) + list(extra)
+    if phys:
+        c["phys"] = phys
+    c["tags"] = (["merge_sort", f"fmt={fmt}", f"dtype={dtype}", f"layout={layout}"] + _shape_tags(ins, True)
+                 + _phys_tags(phys) + list(extra))
     return c
 
 
@@ -368,6 +881,161 @@ def _exhaustive(maxn):
                 continue
             for combo in itertools.product(*[ms[s] for s in sizes]):
                 yield [list(x) for x in combo]
+
+
+def _random_names(rng, logical):
+    if rng.random() < 0.25:
+        return {}
+    return {l: rng.choice(NAME_POOL[l]) for l in logical}
+
+
+def _gen_physical(ctx, n_cases):
+    """(4): sorted inputs, the physical side varied"""
+    rng = ctx.sub("physical")
+    out = []
+    for n in range(n_cases):
+        k = rng.choice([1, 2, 2, 3, 3, 4, 5, 8, 9, 12])
+        N = rng.choice([1, 2, 3, 5, 8, 12] + ([20, 40] if ctx.thorough else []))
+        desc = rng.random() < 0.5
+        sclass = rng.choice([None, None, None, "fbits", "fbits", "hugeint", "hugeint"])
+        lens = [1 if rng.random() < 0.2 else rng.randint(1, N) for _ in range(k)]
+        is_table = rng.random() < 0.6
+        ph = {"idb": 1000, "sclass": sclass, "nulls": rng.random() < 0.4,
+              "repeat": rng.choice(["none", "none", "twice", "interleaved"])}
+        dtype = "float"
+        if sclass == "fbits":
+            w = rng.choice([3, 6, len(FB_KEYS)])
+            lo = rng.randrange(len(FB_KEYS) - w + 1)
+            draw = lambda: FB_KEYS[lo + rng.randrange(w)]
+        elif sclass == "hugeint":
+            w = rng.choice([2, 4, len(HUGE_INTS)])
+            lo = rng.randrange(len(HUGE_INTS) - w + 1)
+            draw = lambda: HUGE_INTS[lo + rng.randrange(w)]
+            dtype = "int"
+        else:
+            pool = rng.choice([1, 2, 3, 5, 50, 10 ** 6])
+            base = rng.choice([0, -pool // 2, 10 ** 9])
+            dtype = rng.choice(["int", "float"])
+            mixed = (not is_table) and rng.random() < 0.35
+            if mixed:
+                dtype = "float"
+                ph["dtypes"] = [rng.choice(["int4", "float"]) for _ in range(k)]
+            draw = lambda: base + rng.randrange(pool)
+        shape = []
+        for j, m in enumerate(lens):
+            ks = [draw() for _ in range(m)]
+            if ph.get("dtypes") and ph["dtypes"][j] == "int4":
+                ks = [SCALE * q for q in ks]
+            shape.append(sorted(ks, reverse=desc))
+        tot = sum(lens)
+        rchunk = rng.choice([1, 2, N, N + 1, rng.randint(1, N + 1)])
+        rg = rng.choice([None, 1, 2])
+        if is_table:
+            via = VIAS[n % 6]
+            backing = rng.choice(["df", "df", "df", "tsv", "parquet"])
+            wrap = rng.choice(["none", "none", "mapped", "computed", "joined", "nested"])
+            order = list(COLS)
+            rng.shuffle(order)
+            if wrap == "computed":
+                order.remove("aux")
+                order.append("aux")
+            if wrap == "nested" and k < 2:
+                wrap = "none"
+            index = "range"
+            if backing == "df":
+                index = rng.choice(["range", "shift", "perm", "dups", "dups", "str"])
+                if wrap == "joined" and index in ("dups", "str"):
+                    index = "perm"       # JoinedTabularDataReader aligns its members on the row labels
+            cols = None
+            if via != "merge_readers" and rng.random() < 0.4:
+                rest = [l for l in COLS if l not in ("id", "score") and rng.random() < 0.5]
+                cols = ["id", "score"] + rest
+                rng.shuffle(cols)
+            defaults = [d for d in ("desc", "rchunk") if rng.random() < 0.25]
+            ph.update({"names": _random_names(rng, COLS), "order": order, "index": index, "wrap": wrap,
+                       "columns": cols, "defaults": defaults})
+            if backing != "df":
+                ph["suffix"] = None if backing == "parquet" else rng.choice(TEXT_SUFFIXES)
+            ins = _with_ids(shape, 1000)
+            c = _mk_table(ins, desc, via, rchunk, ochunk=rng.choice([1, 2, tot, tot + 1, rng.randint(1, tot + 1)]),
+                          dtype=dtype, backing=backing, rg=rg, extra=["physical"], phys=ph)
+        else:
+            if not desc:
+                shape = [list(reversed(x)) for x in shape]
+            layout = rng.choice(["mixed", "mixed", "numeric"])
+            logical = COLS if layout == "mixed" else NCOLS
+            order = list(logical)
+            rng.shuffle(order)
+            fmt = rng.choice(["tsv", "csv", "parquet", "parquet"])
+            ph.update({"names": _random_names(rng, logical), "order": order, "rot": rng.random() < 0.3})
+            if fmt != "parquet":
+                ph["suffix"] = rng.choice(TEXT_SUFFIXES)
+            ins = _with_ids(shape, 1000)
+            c = _mk_ms(ins, fmt, rchunk, dtype=dtype, rg=rg, extra=["physical"], phys=ph, layout=layout)
+        out.append(c)
+    return out
+
+
+def _gen_physical_malformed(ctx, base_cases, n_cases):
+    """(5): an inversion between neighbouring values / the wrong declared direction, physical side as in (4)"""
+    rng = ctx.sub("physical-malformed")
+    out = []
+    for n in range(n_cases):
+        b = base_cases[rng.randrange(len(base_cases))]
+        c = copy.deepcopy({k: v for k, v in b.items() if k != "tags"})
+        ph = c["phys"]
+        if ph.get("wrap") == "nested":
+            ph["wrap"] = "none"
+        ins = c["inputs"]
+        kind = rng.choice(["swap", "swap", "direction"])
+        cand = [(j, p) for j, inp in enumerate(ins) for p in range(len(inp) - 1) if inp[p][0] != inp[p + 1][0]]
+        if kind == "swap" and cand:
+            j, p = cand[rng.randrange(len(cand))]
+            ins[j][p][0], ins[j][p + 1][0] = ins[j][p + 1][0], ins[j][p][0]
+        else:
+            kind = "direction"
+            if c["fn"] == "table":
+                c["desc"] = not c["desc"]
+            else:
+                for x in ins:
+                    ks = [r[0] for r in x][::-1]
+                    for r, k in zip(x, ks):
+                        r[0] = k
+        if c["fn"] == "table":
+            m = _mk_table(ins, c["desc"], c["via"], c["rchunk"], c["ochunk"], c["dtype"], c["backing"], c["rg"],
+                          extra=["physical", "malformed", kind], phys=ph)
+        else:
+            m = _mk_ms(ins, c["fmt"], c["rchunk"], c["dtype"], c["rg"], extra=["physical", "malformed", kind], phys=ph,
+                       layout=c["layout"])
+        out.append(m)
+    return out
+
+
+def _gen_default_chunks(ctx):
+    """(6): inputs longer than the default chunk sizes, the defaults left alone"""
+    rng = ctx.sub("default-chunks")
+    out = []
+
+    def shape(lens, pool, desc=True):
+        return [sorted((rng.randrange(pool) for _ in range(m)), reverse=desc) for m in lens]
+    ms_lens = [[20001, 3], [20000, 20001, 1]] if ctx.thorough else [[20001, 3]]
+    for lens in ms_lens:
+        for fmt in ("csv", "parquet"):
+            ph = {"idb": 10 ** 6, "sclass": None, "names": {"score": "mokapot score"} if fmt == "csv" else {},
+                  "suffix": ".csv" if fmt == "csv" else None}
+            ins = _with_ids(shape(lens, 5000), 10 ** 6)
+            out.append(_mk_ms(ins, fmt, 0, dtype="float", rg=None, extra=["default-chunk-size"], phys=ph, layout="mixed"))
+    tb = [([1000, 1001], "rows-Dicts", "df"), ([2001, 1], "rows-Records", "tsv"), ([1001, 999, 2], "read", "parquet")]
+    if ctx.thorough:
+        tb += [([3000, 1001], "chunked", "df"), ([1001, 1000], "merge_readers", "df"), ([2500], "rows-DataFrame", "parquet")]
+    for n, (lens, via, backing) in enumerate(tb):
+        desc = n % 2 == 0
+        ph = {"idb": 10 ** 6, "sclass": None, "defaults": ["rchunk"] + (["desc"] if desc else []),
+              "suffix": ".tsv" if backing == "tsv" else None}
+        ins = _with_ids(shape(lens, 300, desc), 10 ** 6)
+        out.append(_mk_table(ins, desc, via, 1000, ochunk=777, dtype="int" if n % 2 else "float", backing=backing,
+                             extra=["default-chunk-size"], phys=ph))
+    return out
 
 
 def gen(ctx):
@@ -465,4 +1133,10 @@ def gen(ctx):
         else:
             m = _mk_ms(ins, c["fmt"], c["rchunk"], c["dtype"], c["rg"], extra=["malformed", kind])
         cases.append(m)
+
+    # (4)-(6) white-box review: the physical side
+    cases.extend(_gen_default_chunks(ctx))      # (6) first: the evidence samples the last cases, keep those small
+    physical = _gen_physical(ctx, 5000 if ctx.thorough else 700)
+    cases.extend(physical)
+    cases.extend(_gen_physical_malformed(ctx, physical, 1500 if ctx.thorough else 250))
     return cases
